@@ -545,6 +545,8 @@ def run(repo: Repo, rep):
     r3_rowwise(repo, rep)
     r4_cramer(repo, rep)
     r5_purity(repo, rep)
+    from .c12 import r3_selection  # the name-based selection this property's idioms rely on
+    r3_selection(repo, rep)
 
 
 _U = "src/torchphysics/problem/domains/domainoperations/union.py"
